@@ -239,6 +239,9 @@ func Run[C any](t *testing.T, id string, draw func(*rapid.T) C, run func(C, *Sta
 	defer st.write()
 	watch := &caseWatch{}
 	go watch.monitor(id, st)
+	current.mu.Lock()
+	current.id, current.st, current.watch = id, st, watch
+	current.mu.Unlock()
 
 	if rp := os.Getenv("VERIF_REPLAY"); rp != "" {
 		for _, file := range strings.Split(rp, ",") {
@@ -356,6 +359,41 @@ func (w *caseWatch) monitor(id string, st *Stats) {
 		fmt.Printf("VERIF-FAIL %s sig=%q: %s\n", id, f.Sig, f.Msg)
 		os.Exit(1)
 	}
+}
+
+// current is the running property (one at a time per process): what AbortCase needs.
+var current struct {
+	mu    sync.Mutex
+	id    string
+	st    *Stats
+	watch *caseWatch
+}
+
+// AbortCase is for watchdogs of the harnesses (a virtual-time scenario that is stuck for minutes of real time): it
+// records the failure with the running case as the replay and ends the process, like the monitor does.
+func AbortCase(sig, msg string) {
+	current.mu.Lock()
+	id, st, w := current.id, current.st, current.watch
+	current.mu.Unlock()
+	if st == nil || w == nil {
+		fmt.Printf("VERIF-ABORT sig=%q: %s\n", sig, msg)
+		os.Exit(3)
+	}
+	w.mu.Lock()
+	cj, rr := w.cj, w.replay
+	w.mu.Unlock()
+	f := &Failure{Sig: sig, Msg: msg}
+	st.Failures++
+	st.FailMsg, st.FailSig = f.Msg, f.Sig
+	st.FailFile = saveFail(id, cj, f)
+	if rr != nil {
+		rr.Ran, rr.Failed, rr.Sig, rr.Msg = true, true, f.Sig, f.Msg
+		st.Replays = append(st.Replays, *rr)
+		fmt.Printf("VERIF-REPLAY-FAIL %s file=%s sig=%q: %s\n", id, rr.File, f.Sig, f.Msg)
+	}
+	st.write()
+	fmt.Printf("VERIF-FAIL %s sig=%q: %s\n", id, f.Sig, f.Msg)
+	os.Exit(1)
 }
 
 var probes = map[string]func(*Stats) *Failure{}
